@@ -174,10 +174,9 @@ def dss_round(ctx, L, K, mode, enc, hname, full, rand_path="randfunc"):
     def do_sign(hobj):
         if not fips:
             return outcome(L.DSS.new(K.priv, mode, enc).sign, hobj)
-        if rand_path == "randfunc":
-            return outcome(L.DSS.new(K.priv, mode, enc, randfunc=mktape()).sign, hobj)
-        with mktape():                              # nonce first, then the blinding factor, both from Crypto.Random
-            return outcome(L.DSS.new(K.priv, mode, enc).sign, hobj)
+        # (only the documented randfunc argument is driven: with the default source the ORDER in which the nonce, the
+        #  blinding factors and the lazily computed public point draw from Crypto.Random is not specified)
+        return outcome(L.DSS.new(K.priv, mode, enc, randfunc=mktape()).sign, hobj)
 
     res = do_sign(h)
     if sign_failed(ctx, scheme, res, base):
@@ -248,7 +247,6 @@ def dss_round(ctx, L, K, mode, enc, hname, full, rand_path="randfunc"):
     if full:
         oh = rng.choice([x for x in admitted(K.kind, mode, L) if x != hname])
         offer("other-hash", sig, hn=oh)
-        offer("produced", bytearray(sig), produced=True)
     for kind, cand, opt in cands:
         offer(kind, cand, optional=opt)
     r3 = offer("produced", sig, hobj=h, produced=True)
@@ -267,16 +265,14 @@ def structured(ctx, L, K):
     for ci, (mode, enc) in enumerate(combos):
         for hname in admitted(K.kind, mode, L):
             i += 1
-            dss_round(ctx, L, K, mode, enc, hname, full=(i % 4 == ci),
-                      rand_path="default" if (mode == "fips-186-3" and i % 3 == 0) else "randfunc")
+            dss_round(ctx, L, K, mode, enc, hname, full=(i % 4 == ci))
     ctx.count("structured_done:" + K.kind)
 
 
 def random_round(ctx, L, K):
     rng = ctx.rng
     mode, enc = rng.choice(MODES), rng.choice(ENCODINGS)
-    dss_round(ctx, L, K, mode, enc, rng.choice(admitted(K.kind, mode, L)), full=rng.random() < 0.25,
-              rand_path="default" if rng.random() < 0.2 else "randfunc")
+    dss_round(ctx, L, K, mode, enc, rng.choice(admitted(K.kind, mode, L)), full=rng.random() < 0.25)
 
 
 # ---------------------------------------------------------------------------
@@ -306,7 +302,7 @@ def offer_constructed(ctx, L, K, scheme_kind, kind, r, s, hname, msg, extra, val
                     return
                 rr = outcome(L.DSS.new(K.pub, mode, enc).verify, L.hnew(hname, msg), cand)
                 judge(ctx, scheme, ck, rr, bool(valid), lambda: dict(base(), signature=cand.hex()),
-                      optional=opt, desc=K.cls() + (hname, enc))
+                      optional=opt, desc=K.cls() + (hname, enc), keyscheme=K.kind)   # verification is mode-independent
             ctx.count("constructed:%s:%s" % (kind, scheme))
 
 
@@ -410,7 +406,7 @@ def wycheproof_285(ctx, L):
         rr = outcome(L.DSS.new(key, mode, "der").verify, L.hnew(v["hash"], msg), sig)
         judge(ctx, scheme_name("ecdsa", mode), "constructed-xR-ge-n", rr, True,
               lambda: dict(source="Wycheproof ecdsa_secp256r1_sha256_test tcId 285", **v),
-              desc=("ecdsa", "P-256", "wycheproof-285"))
+              desc=("ecdsa", "P-256", "wycheproof-285"), keyscheme="ecdsa")
     ctx.count("wycheproof_285_shown")
 
 
